@@ -60,7 +60,6 @@ impl<T: RealNumber, M: Matrix<T>> InteriorPointOptimizer<T, M> {
 
         let y = M::from_row_vector(y.sub_scalar(y.mean())).transpose();
 
-        let max_ls_iter = 100;
         let mut pitr = 0;
         let mut w = M::zeros(p, 1);
         let mut neww = w.clone();
@@ -162,8 +161,10 @@ impl<T: RealNumber, M: Matrix<T>> InteriorPointOptimizer<T, M> {
             s = T::one();
             let gdx = grad.dot(&dxu);
 
-            let mut lsiter = 0;
-            while lsiter < max_ls_iter {
+            // backtracking: halve the step until the new point is strictly feasible and gives sufficient decrease.
+            // With finite values this always ends (at the latest when the step underflows to zero and reproduces the
+            // current point); if even the zero step is rejected the values are not finite, and that is an error.
+            loop {
                 for i in 0..p {
                     neww.set(i, 0, w.get(i, 0) + s * dx.get(i, 0));
                     newu.set(i, 0, u.get(i, 0) + s * du.get(i, 0));
@@ -182,14 +183,12 @@ impl<T: RealNumber, M: Matrix<T>> InteriorPointOptimizer<T, M> {
                         break;
                     }
                 }
+                if s == T::zero() {
+                    return Err(Failed::fit(
+                        "Line search of the interior point optimizer failed: non-finite values",
+                    ));
+                }
                 s = beta * s;
-                lsiter += 1;
-            }
-
-            if lsiter == max_ls_iter {
-                return Err(Failed::fit(
-                    "Exceeded maximum number of iteration for interior point optimizer",
-                ));
             }
 
             w.copy_from(&neww);
